@@ -220,17 +220,85 @@ def windowOfIdx (w h : Int) (cubic : Bool) (iw ie in0 is0 : Int) : Int × Int ×
 /-- `east` after `if (east <= west) east += 360` -/
 def eastOf (west east : F64) : F64 := if F64.le east west then east + F64.ofInt Gen.MathC.td else east
 
-def cacheWindow (f : File) (cubic : Bool) (south west north east : F64) : Window :=
-  if F64.gt south north then .clear else
-  let south := MathF.latFix south
-  let north := MathF.latFix north
+/-- the four floors of `CacheArea` after `LatFix` / `AngNormalize` / `east += 360`:
+    `(⌊west·rlonres⌋, ⌊east·rlonres⌋, ⌊−north·rlatres⌋, ⌊−south·rlatres⌋)` -/
+def cacheFloors (f : File) (south west north east : F64) : Int × Int × Int × Int :=
   let west := MathF.angNormalize west
   let east := eastOf west (MathF.angNormalize east)
-  if !(south.isFinite && north.isFinite && west.isFinite && east.isFinite) then .invalid else
   let rlonres := F64.ofInt f.w / F64.ofInt Gen.MathC.td
   let rlatres := F64.ofInt (f.h - 1) / F64.ofInt Gen.MathC.hd
-  let p := windowOfIdx f.w f.h cubic (fl (west * rlonres)) (fl (east * rlonres)) (fl (F64.neg north * rlatres)) (fl (F64.neg south * rlatres))
+  (fl (west * rlonres), fl (east * rlonres), fl (F64.neg (MathF.latFix north) * rlatres), fl (F64.neg (MathF.latFix south) * rlatres))
+
+def cacheWindow (f : File) (cubic : Bool) (south west north east : F64) : Window :=
+  if F64.gt south north then .clear else
+  if !((MathF.latFix south).isFinite && (MathF.latFix north).isFinite && (MathF.angNormalize west).isFinite &&
+      (eastOf (MathF.angNormalize west) (MathF.angNormalize east)).isFinite) then .invalid else
+  let q := cacheFloors f south west north east
+  let p := windowOfIdx f.w f.h cubic q.1 q.2.1 q.2.2.1 q.2.2.2
   .set p.1 p.2.1 p.2.2.1 p.2.2.2
+
+/-! ## the values of type `int` the code computes (finding F73: they must not overflow)
+
+Hand transcription of every `int` subexpression of `Geoid::height`, `Geoid::rawval`, `Geoid::CacheArea` and the cache
+inspectors, as functions of the floors / indices they start from.  `Props.C20.accepted_int_arithmetic` shows that for every
+accepted raster (dimensions ≤ 2^30) all of them lie in the range of `int`; the driver evaluates `intsOK` on them for every
+query and every `CacheArea` of a run. -/
+
+def intsOK (l : List Int) : Bool := l.all fun x => decide (-(2 : Int) ^ 31 ≤ x) && decide (x ≤ (2 : Int) ^ 31 - 1)
+
+/-- `Geoid::height`: from `int(floor(fx))`, `int(floor(fy))` to the cell `(ix, iy)` and the stencil arguments of `rawval` -/
+def heightInts (w h flx fly : Int) : List Int :=
+  let hh2 := (h - 1) / 2
+  let iy0 := max (-hh2) (min (hh2 - 1) fly)
+  let sh := if flx < 0 then w else if flx ≥ w then -w else 0
+  let ix := flx + sh
+  let iy := iy0 + hh2
+  [flx, fly, h - 1, hh2, hh2 - 1, min (hh2 - 1) fly, -(h - 1), -hh2, iy0, iy, -w, sh, ix, h - 2,
+   ix - 1, ix + 1, ix + 2, iy - 1, iy + 1, iy + 2]
+
+/-- `Geoid::rawval(ix0, iy)` with the cache window `(xoff, yoff, xsize, ysize)` -/
+def rawvalInts (w h xoff yoff xsize ysize ix0 iy : Int) : List Int :=
+  let ix := if ix0 < 0 then ix0 + w else if ix0 ≥ w then ix0 - w else ix0
+  let t := (if ix < w / 2 then 1 else -1) * w
+  [ix, yoff + ysize, xoff + xsize, ix + w, iy - yoff, ix - xoff, ix + w - xoff,
+   -iy, h - 1, 2 * (h - 1), 2 * (h - 1) - iy, w / 2, t, t / 2, ix + t / 2]
+
+/-- `Geoid::CacheArea`: from the four floors to `_xoffset, _yoffset, _xsize, _ysize` -/
+def cacheAreaInts (w h : Int) (cubic : Bool) (iw0 ie0 in0 is0 : Int) : List Int :=
+  let hh2 := (h - 1) / 2
+  let in1 := in0 + hh2
+  let is1 := is0 + hh2
+  let in2 := max 0 (min (h - 2) in1)
+  let is2 := max 0 (min (h - 2) is1)
+  let c : Int := if cubic then 1 else 0
+  let in4 := in2 - c
+  let is4 := is2 + 1 + c
+  let iw4 := iw0 - c
+  let ie4 := ie0 + 1 + c
+  let sh := if iw4 < 0 then w else if iw4 ≥ w then -w else 0
+  let full := ie4 - iw4 ≥ w - 1
+  [iw0, ie0, in0, is0, h - 1, hh2, in1, is1, h - 2, min (h - 2) in1, in2, min (h - 2) is1, is2, is2 + 1, ie0 + 1, in4, is4, iw4, ie4,
+   ie4 - iw4, w - 1, -w, sh, (if full then w - 1 else ie4 + sh), (if full then 0 else iw4 + sh),
+   (if full then w - 1 - 0 + 1 else ie4 + sh - (iw4 + sh) + 1), (if full then w - 1 - 0 else ie4 + sh - (iw4 + sh)), is4 - in4, is4 - in4 + 1,
+   -- the results, as the executed `windowOfIdx` computes them
+   (windowOfIdx w h cubic iw0 ie0 in0 is0).1, (windowOfIdx w h cubic iw0 ie0 in0 is0).2.1,
+   (windowOfIdx w h cubic iw0 ie0 in0 is0).2.2.1, (windowOfIdx w h cubic iw0 ie0 in0 is0).2.2.2]
+
+/-- the loop of `CacheArea` that fills cache row `iy` (`yoff ≤ iy < yoff + ysize`) -/
+def fillInts (w h xoff yoff xsize iy : Int) : List Int :=
+  let beyond := iy < 0 ∨ iy ≥ h
+  let iy1 := if beyond then (if iy < 0 then -iy else 2 * (h - 1) - iy) else iy
+  let iw1a := if beyond then xoff + w / 2 else xoff
+  let iw1 := if beyond ∧ iw1a ≥ w then iw1a - w else iw1a
+  let xs1 := min (w - iw1) xsize
+  [iy, -iy, h - 1, 2 * (h - 1), 2 * (h - 1) - iy, iy1, w / 2, iw1a, iw1a - w, iw1, w - iw1, xs1, iy - yoff, xsize - xs1, iy + 1]
+
+/-- `CacheWest/East/North/South` -/
+def getterInts (w xoff yoff xsize ysize : Int) (cubic : Bool) : List Int :=
+  let c : Int := if cubic then 1 else 0
+  let a := xoff + (if xsize = w then 0 else c) + w / 2
+  [w / 2, xoff + (if xsize = w then 0 else c), a, a % w, a % w - w / 2, 2 * c, 1 + 2 * c, xsize - (if xsize = w then 0 else 1 + 2 * c),
+   yoff + c, yoff + ysize, yoff + ysize - 1, yoff + ysize - 1 - c]
 
 /-! ## the public operations: `operator()`, `CacheArea`, `CacheAll`, `CacheClear` on the binary64 instance -/
 
